@@ -159,6 +159,19 @@ func (e *Engine) specFor(f *ssa.Function) *FuncSpec {
 	return nil
 }
 
+// specActive: contracts tagged `for Cxx ...` are used only while checking one of those properties.
+func (e *Engine) specActive(sp *FuncSpec) bool {
+	if e.filterProp == "" || len(sp.Props) == 0 {
+		return true
+	}
+	for _, p := range sp.Props {
+		if p == e.filterProp {
+			return true
+		}
+	}
+	return false
+}
+
 // ifaceSpec: contract for an interface method call, keyed "<IfaceName>.<Method>" in the interface's package.
 func (e *Engine) ifaceSpec(c *ssa.CallCommon) *FuncSpec {
 	if !c.IsInvoke() {
